@@ -813,18 +813,25 @@ func hvTransaction(c *Ctx, f *hvFile, pl *hvPools, withDropped bool) {
 		date = fmt.Sprintf("%04d-%02d-%02d", y, m, d)
 	}
 	f.occ(date, J{"k": "date"})
+	// `simple` (header is `date SP [status SP] payee`) only feeds the evidence counters: the
+	// payee is located on the header line whatever stands in front of it (fix-payee-range.diff)
 	simple := true
-	if r.IntN(24) == 0 {
+	if r.IntN(4) == 0 {
 		f.w("=" + fmt.Sprintf("%04d-%02d-%02d", y, m, min(28, d+1)))
 		simple = false
 		c.Count("hdr.date2")
 	}
 	blank := func() {
-		if r.IntN(30) == 0 {
-			f.w(strings.Repeat(" ", 2+r.IntN(2)))
+		switch r.IntN(8) {
+		case 0:
+			f.w(strings.Repeat(" ", 2+r.IntN(5)))
 			simple = false
 			c.Count("hdr.wideblank")
-		} else {
+		case 1:
+			f.w(pick(r, []string{"\t", " \t", "\t ", "  \t  "}))
+			simple = false
+			c.Count("hdr.tab")
+		default:
 			f.w(" ")
 		}
 	}
@@ -832,9 +839,9 @@ func hvTransaction(c *Ctx, f *hvFile, pl *hvPools, withDropped bool) {
 		blank()
 		f.w(pick(r, []string{"*", "!"}))
 	}
-	if r.IntN(24) == 0 {
+	if r.IntN(3) == 0 {
 		blank()
-		f.w("(" + pick(r, []string{"12", "c-1", "INV 7"}) + ")")
+		f.w("(" + pick(r, []string{"12", "c-1", "INV 7", "№5"}) + ")")
 		simple = false
 		c.Count("hdr.code")
 	}
@@ -843,6 +850,9 @@ func hvTransaction(c *Ctx, f *hvFile, pl *hvPools, withDropped bool) {
 		blank()
 		payee = pick(r, pl.payees)
 		f.occ(payee, J{"k": "payee", "name": hx(payee), "simple": simple})
+		if !simple {
+			c.Count("hdr.payee-behind-lead")
+		}
 		if r.IntN(3) == 0 && payee != "Shop😀" {
 			f.w(pick(r, []string{" | ", "|", " |", "| "}) + pick(r, []string{"weekly", "note 1", "Shop"}))
 			c.Count("hdr.note")
